@@ -10,6 +10,7 @@ use std::hash::{Hash, Hasher};
 use std::time::Instant;
 use vstd::std_specs::core::{IndexSpec, IndexSpecImpl};
 use vstd::std_specs::cmp::*;
+use vstd::std_specs::iter::IteratorSpec;
 verus! {
 
 // ---------------------------------------------------------------------------------------------
